@@ -635,22 +635,37 @@ def run(p: Program, rep: Report, tier: str) -> None:
         if n_range == 0 or n_err == 0:
             rep.undecide("R2.3", f"{side}: __call__ has {n_range} range paths / {n_err} error paths")
         # file_size is the captured stat's size
-        src = ast.unparse(canon(call.node))
-        if "stat_result = self.stat_result" in src and "file_size = stat_result.st_size" in src:
-            rep.ok("R2.2", f"{side}: file_size is st_size of the stat_result captured at construction")
+        SIZE = ("attr", ("attr", ("param", "self"), "stat_result"), "st_size")
+        hcalls = [e for pa in paths for e in pa.events if e.kind == "call" and callee_is(e.a, "handle_all", "handle_single_range", "handle_several_ranges")]
+        wrong = [e for e in hcalls if len(e.b) < 2 or e.b[1] != SIZE]
+        if hcalls and not wrong:
+            rep.ok("R2.2", f"{side}: file_size is st_size of the stat_result captured at construction (every handler call receives it)")
+        elif wrong:
+            rep.violation("R2.2", construct(call, text="file_size"), where(call), f"{side}: file_size is not the st_size of the captured stat_result (a handler is given {show(wrong[0].b[1])[:50] if len(wrong[0].b) > 1 else 'nothing'})")
         else:
-            rep.violation("R2.2", construct(call, text="file_size"), where(call), f"{side}: file_size is not the st_size of the captured stat_result")
+            rep.undecide("R2.2", f"{side}: __call__ reaches no file handler")
     ex = p.cls("baize.exceptions:RangeNotSatisfiable").methods.get("__init__")
     if ex is not None and "{'Content-Range': f'*/{max_size}'}" in ast.unparse(ex.node):
         rep.ok("R2.4", "416 carries Content-Range: */<size given by parse_range>")
     else:
         rep.violation("R2.4", construct("baize.exceptions:RangeNotSatisfiable.__init__", text="Content-Range"), "baize/exceptions.py", "RangeNotSatisfiable no longer carries Content-Range: */size")
     pr = mixin.methods.get("parse_range")
-    rs = [n for n in ast.walk(pr.node) if isinstance(n, ast.Raise) and "RangeNotSatisfiable" in ast.unparse(n)]
-    if rs and all(ast.unparse(n.exc) == "RangeNotSatisfiable(max_size)" for n in rs):
-        rep.ok("R2.4", "parse_range raises RangeNotSatisfiable(max_size)")
-    else:
-        rep.violation("R2.4", construct(pr, text="RangeNotSatisfiable argument"), where(pr), "parse_range does not raise RangeNotSatisfiable with the file size")
+    # on the paths of parse_range (its private stages inlined): every RangeNotSatisfiable that is raised carries the size parameter
+    try:
+        ppaths, _pc, _pi = run_paths(p, pr, mixin)
+    except Exception as e_:  # the loops of parse_range can exceed the engine's bounds
+        ppaths = None
+        rep.undecide("R2.4", f"parse_range not explorable: {e_}")
+    if ppaths is not None:
+        MS = ("param", pr.params[-1] if "max_size" not in pr.params else "max_size")
+        rns = [e.a for pa in ppaths for e in pa.events if e.kind == "raise" and "RangeNotSatisfiable" in show(e.a)]
+        if rns and all(x[0] == "call" and tuple(x[2]) == (MS,) for x in rns):
+            rep.ok("R2.4", "parse_range raises RangeNotSatisfiable(max_size)")
+        elif rns:
+            bad_ = next(x for x in rns if not (x[0] == "call" and tuple(x[2]) == (MS,)))
+            rep.violation("R2.4", construct(pr, text="RangeNotSatisfiable argument"), where(pr), f"parse_range does not raise RangeNotSatisfiable with the file size (got {show(bad_)[:60]})")
+        else:
+            rep.violation("R2.4", construct(pr, text="RangeNotSatisfiable argument"), where(pr), "parse_range does not raise RangeNotSatisfiable with the file size")
     rep.require_instances("R2.3", 3)
     rep.require_instances("R2.4", 4)
 
@@ -851,9 +866,12 @@ def run(p: Program, rep: Report, tier: str) -> None:
     if pr is None:
         raise AnalysisError("FileResponseMixin.parse_range vanished")
     rep.analysed(pr.fq)
-    returned = {n.value.id for n in ast.walk(pr.node) if isinstance(n, ast.Return) and isinstance(n.value, ast.Name)}
-    merges = [n for n in ast.walk(pr.node) if isinstance(n, ast.Assign) and len(n.targets) == 1 and isinstance(n.targets[0], ast.Subscript)
-              and isinstance(n.targets[0].value, ast.Name) and n.targets[0].value.id in returned and isinstance(n.value, ast.Tuple) and len(n.value.elts) == 2]
+    from ..common import with_helpers as _wh
+    merges = []
+    for f_ in _wh(p, pr):  # parse_range and the private stages it is split into
+        returned = {n.value.id for n in ast.walk(f_.node) if isinstance(n, ast.Return) and isinstance(n.value, ast.Name)}
+        merges += [n for n in ast.walk(f_.node) if isinstance(n, ast.Assign) and len(n.targets) == 1 and isinstance(n.targets[0], ast.Subscript)
+                   and isinstance(n.targets[0].value, ast.Name) and n.targets[0].value.id in returned and isinstance(n.value, ast.Tuple) and len(n.value.elts) == 2]
     for m_ in merges:
         lo, hi = m_.value.elts
         loop = next((q for q in _parents(m_) if isinstance(q, ast.For) and isinstance(q.target, ast.Tuple)), None)
